@@ -18,6 +18,9 @@ CHECKS = {
  "C04": ("small-scope clause enumeration (E1): every ordered body of <=3 literals (thorough 4) over a 28-literal alphabet x 5 heads x 4 transform tails, through parse+Analyze; accepted clauses evaluated on 3 EDBs against the reference meaning of the clause as written",
          "bounded-exhaustive: for every clause in scope, acceptance implies (a) the reference can evaluate it in some order, (b) evaluation returns without panic/error, (c) the result equals the reference result (no literal ignored), (d) only ground facts",
          "reference evaluator verifmc/oracle; shapes with undocumented meaning (transform redefining a body variable, wildcard in an aggregated body) are outside the alphabet", "4 C04"),
+ "C06": ("operation-history search (E2): every Add/Remove/Merge sequence up to depth d over a 12-atom universe on 9 store constructions, all observers in every reached state against a set model",
+         "bounded-exhaustive: every history up to the depth bound is replayed on a fresh real store; return values, Contains for all atoms, GetFacts for all patterns (exactly-once), ListPredicates and EstimateFactCount are compared with a structural set model in every state",
+         "set model = Go map keyed by verifmc/oracle structural key; wrappers modelled as read part + write part; teeing Merge writes through (required by the repo's own test); violations that coincide with a set keyed by Atom.Hash() are attributed to known finding F8", "4 C06"),
 }
 NOT_APPLICABLE = {
 }
